@@ -494,7 +494,7 @@ def run(ctx):
     if thorough:
         grid = GRID + EXTRA_GRID + ctx.rng.sample(THEOREM_GRID, 40)
     else:
-        grid = [GRID[0]] + ctx.rng.sample(THEOREM_GRID, 3) + [ctx.rng.choice(EXTRA_GRID)]
+        grid = [GRID[0]] + ctx.rng.sample(THEOREM_GRID, 2) + [ctx.rng.choice(EXTRA_GRID)]
     for _ in range(8 if thorough else 1):
         a = round(ctx.rng.uniform(-5, 5), 2)
         grid.append((float(a), float(a + round(ctx.rng.uniform(0.05, 9), 2))))
@@ -748,7 +748,8 @@ META = {
                   '(np.allclose form refuted). The constructed vector satisfies the boolean open_kv for mult <= max(p,1), so C02\'s '
                   'theorems (partition of unity, non-negativity, locality, single_ev = collocation = reference) hold on it '
                   '(make_knots_basis_properties). Greville points: running average, inside the support, strictly inside for the '
-                  'interior ones of an open knot vector (Schoenberg-Whitney position), cell midpoints for p = 0; uniform refinement '
+                  'interior ones of an open knot vector (Schoenberg-Whitney position) with N_i(g_i) > 0 for every i (B-splines are '
+                  'strictly positive inside their support), cell midpoints for p = 0; uniform refinement '
                   'halves every span; Spline.derivative equals the pointwise derivative (dNref of C02). Not proved: non-singularity '
                   'of the Greville collocation matrix; the binary64 constructor outside the listed intervals.',
     'level_note': 'Trusted: Coq kernel + vm_compute; PrimFloat primitives; the reading of numpy arange/linspace/unique/convolve in '
